@@ -3,7 +3,7 @@ use crate::diff_parser::LineChange;
 use crate::language_parsers::LanguageParser;
 use anyhow::{Context, anyhow};
 use globset::GlobSet;
-use ignore::Walk;
+use ignore::WalkBuilder;
 use serde_repr::Serialize_repr;
 use std::cmp::Ordering;
 use std::collections::HashMap;
@@ -472,18 +472,23 @@ impl FileSystem for FileSystemImpl {
     fn walk(&self) -> impl Iterator<Item = anyhow::Result<PathBuf>> {
         // Clone root_path for the closure.
         let root_path = self.root_path.clone();
-        Walk::new(&self.root_path).filter_map(move |entry| match entry {
-            Ok(entry) => {
-                let path = entry.path();
-                if path.is_dir() {
-                    return None;
+        // Hidden and git-ignored files are skipped; `.ignore` files (a ripgrep convention, also
+        // looked up in the directories above the root) are not part of that contract.
+        WalkBuilder::new(&self.root_path)
+            .ignore(false)
+            .build()
+            .filter_map(move |entry| match entry {
+                Ok(entry) => {
+                    let path = entry.path();
+                    if path.is_dir() {
+                        return None;
+                    }
+                    // Return path relative to the root.
+                    let relative_path = path.strip_prefix(&root_path).unwrap_or(path);
+                    Some(Ok(relative_path.to_path_buf()))
                 }
-                // Return path relative to the root.
-                let relative_path = path.strip_prefix(&root_path).unwrap_or(path);
-                Some(Ok(relative_path.to_path_buf()))
-            }
-            Err(err) => Some(Err(anyhow::Error::from(err))),
-        })
+                Err(err) => Some(Err(anyhow::Error::from(err))),
+            })
     }
 }
 
